@@ -216,23 +216,16 @@ single_filter_harness!(c22_limit_single_ge, ">=", |c, x| c >= x, false, true);
 single_filter_harness!(c22_limit_single_ne, "!=", |c, x| c != x, false, false);
 
 macro_rules! two_filter_harness {
-    ($name:ident, $op1:literal, $op2:literal, $pass1:expr, $pass2:expr) => {
+    ($name:ident, $op1:literal, $op2:literal, $pass1:expr, $pass2:expr, $s1:literal, $s2:literal) => {
         #[kani::proof]
         #[kani::unwind(4)]
         pub(crate) fn $name() {
-            let (s1, s2) = (vk::any_bool(), vk::any_bool());
+            // the signedness of both arguments is fixed per harness (one path each): x is Int64 iff $s1, y is Int64 iff $s2
             let (i1, u1, i2, u2) = (vk::any_i64(), vk::any_u64(), vk::any_i64(), vk::any_u64());
-            let (x, y): (i128, i128) = (if s1 { i1 as i128 } else { u1 as i128 }, if s2 { i2 as i128 } else { u2 as i128 });
-            let mk = |s: bool, i: i64, u: u64| if s { FieldValue::Int64(i) } else { FieldValue::Uint64(u) };
+            let (x, y): (i128, i128) = (if $s1 { i1 as i128 } else { u1 as i128 }, if $s2 { i2 as i128 } else { u2 as i128 });
             let mut args = BTreeMap::new();
-            // concrete variants on each path
-            match (s1, s2) {
-                (true, true) => { args.insert(Arc::from("x"), FieldValue::Int64(i1)); args.insert(Arc::from("y"), FieldValue::Int64(i2)); }
-                (true, false) => { args.insert(Arc::from("x"), FieldValue::Int64(i1)); args.insert(Arc::from("y"), FieldValue::Uint64(u2)); }
-                (false, true) => { args.insert(Arc::from("x"), FieldValue::Uint64(u1)); args.insert(Arc::from("y"), FieldValue::Int64(i2)); }
-                (false, false) => { args.insert(Arc::from("x"), FieldValue::Uint64(u1)); args.insert(Arc::from("y"), FieldValue::Uint64(u2)); }
-            }
-            let _ = mk;
+            if $s1 { args.insert(Arc::from("x"), FieldValue::Int64(i1)); } else { args.insert(Arc::from("x"), FieldValue::Uint64(u1)); }
+            if $s2 { args.insert(Arc::from("y"), FieldValue::Int64(i2)); } else { args.insert(Arc::from("y"), FieldValue::Uint64(u2)); }
             let fold = mk_fold(vec![mk_filter($op1, "x"), mk_filter($op2, "y")]);
             let mut carrier = mk_carrier(args);
             let max = get_max_fold_count_limit(&mut carrier, &fold);
@@ -245,15 +238,51 @@ macro_rules! two_filter_harness {
         }
     };
 }
-// @harness c22_limit_pair_lt_le tier=thorough heavy=1 kind=complete timeout=3000 unwindset="!memcmp.0=12"
-// @ob two count filters `< $x` and `<= $y` (combining two max limits), all integer arguments and counts
-two_filter_harness!(c22_limit_pair_lt_le, "<", "<=", |c, x| c < x, |c, y| c <= y);
-// @harness c22_limit_pair_gt_ge tier=thorough heavy=1 kind=complete timeout=3000 unwindset="!memcmp.0=12"
-// @ob two count filters `> $x` and `>= $y` (combining two min limits)
-two_filter_harness!(c22_limit_pair_gt_ge, ">", ">=", |c, x| c > x, |c, y| c >= y);
-// @harness c22_limit_pair_ge_le tier=thorough heavy=1 kind=complete timeout=3000 unwindset="!memcmp.0=12"
-// @ob `>= $x` and `<= $y` together: the max limit applies, no min limit may be produced
-two_filter_harness!(c22_limit_pair_ge_le, ">=", "<=", |c, x| c >= x, |c, y| c <= y);
-// @harness c22_limit_pair_ge_ne tier=thorough heavy=1 kind=complete timeout=3000 unwindset="!memcmp.0=12"
-// @ob `>= $x` and `!= $y` together: no min limit may be produced (the `!=` filter would see a truncated count)
-two_filter_harness!(c22_limit_pair_ge_ne, ">=", "!=", |c, x| c >= x, |c, y| c != y);
+// @harness c22_limit_pair_lt_le_ii tier=thorough heavy=1 kind=complete timeout=1800 unwindset="!memcmp.0=12"
+// @ob two count filters `< $x` and `<= $y` (combining two max limits), all integer arguments and counts (x: Int64, y: Int64, full domains)
+two_filter_harness!(c22_limit_pair_lt_le_ii, "<", "<=", |c, x| c < x, |c, y| c <= y, true, true);
+// @harness c22_limit_pair_lt_le_iu tier=thorough heavy=1 kind=complete timeout=1800 unwindset="!memcmp.0=12"
+// @ob two count filters `< $x` and `<= $y` (combining two max limits), all integer arguments and counts (x: Int64, y: Uint64, full domains)
+two_filter_harness!(c22_limit_pair_lt_le_iu, "<", "<=", |c, x| c < x, |c, y| c <= y, true, false);
+// @harness c22_limit_pair_lt_le_ui tier=thorough heavy=1 kind=complete timeout=1800 unwindset="!memcmp.0=12"
+// @ob two count filters `< $x` and `<= $y` (combining two max limits), all integer arguments and counts (x: Uint64, y: Int64, full domains)
+two_filter_harness!(c22_limit_pair_lt_le_ui, "<", "<=", |c, x| c < x, |c, y| c <= y, false, true);
+// @harness c22_limit_pair_lt_le_uu tier=thorough heavy=1 kind=complete timeout=1800 unwindset="!memcmp.0=12"
+// @ob two count filters `< $x` and `<= $y` (combining two max limits), all integer arguments and counts (x: Uint64, y: Uint64, full domains)
+two_filter_harness!(c22_limit_pair_lt_le_uu, "<", "<=", |c, x| c < x, |c, y| c <= y, false, false);
+// @harness c22_limit_pair_gt_ge_ii tier=thorough heavy=1 kind=complete timeout=1800 unwindset="!memcmp.0=12"
+// @ob two count filters `> $x` and `>= $y` (combining two min limits) (x: Int64, y: Int64, full domains)
+two_filter_harness!(c22_limit_pair_gt_ge_ii, ">", ">=", |c, x| c > x, |c, y| c >= y, true, true);
+// @harness c22_limit_pair_gt_ge_iu tier=thorough heavy=1 kind=complete timeout=1800 unwindset="!memcmp.0=12"
+// @ob two count filters `> $x` and `>= $y` (combining two min limits) (x: Int64, y: Uint64, full domains)
+two_filter_harness!(c22_limit_pair_gt_ge_iu, ">", ">=", |c, x| c > x, |c, y| c >= y, true, false);
+// @harness c22_limit_pair_gt_ge_ui tier=thorough heavy=1 kind=complete timeout=1800 unwindset="!memcmp.0=12"
+// @ob two count filters `> $x` and `>= $y` (combining two min limits) (x: Uint64, y: Int64, full domains)
+two_filter_harness!(c22_limit_pair_gt_ge_ui, ">", ">=", |c, x| c > x, |c, y| c >= y, false, true);
+// @harness c22_limit_pair_gt_ge_uu tier=thorough heavy=1 kind=complete timeout=1800 unwindset="!memcmp.0=12"
+// @ob two count filters `> $x` and `>= $y` (combining two min limits) (x: Uint64, y: Uint64, full domains)
+two_filter_harness!(c22_limit_pair_gt_ge_uu, ">", ">=", |c, x| c > x, |c, y| c >= y, false, false);
+// @harness c22_limit_pair_ge_le_ii tier=thorough heavy=1 kind=complete timeout=1800 unwindset="!memcmp.0=12"
+// @ob `>= $x` and `<= $y` together: the max limit applies, no min limit may be produced (x: Int64, y: Int64, full domains)
+two_filter_harness!(c22_limit_pair_ge_le_ii, ">=", "<=", |c, x| c >= x, |c, y| c <= y, true, true);
+// @harness c22_limit_pair_ge_le_iu tier=thorough heavy=1 kind=complete timeout=1800 unwindset="!memcmp.0=12"
+// @ob `>= $x` and `<= $y` together: the max limit applies, no min limit may be produced (x: Int64, y: Uint64, full domains)
+two_filter_harness!(c22_limit_pair_ge_le_iu, ">=", "<=", |c, x| c >= x, |c, y| c <= y, true, false);
+// @harness c22_limit_pair_ge_le_ui tier=thorough heavy=1 kind=complete timeout=1800 unwindset="!memcmp.0=12"
+// @ob `>= $x` and `<= $y` together: the max limit applies, no min limit may be produced (x: Uint64, y: Int64, full domains)
+two_filter_harness!(c22_limit_pair_ge_le_ui, ">=", "<=", |c, x| c >= x, |c, y| c <= y, false, true);
+// @harness c22_limit_pair_ge_le_uu tier=thorough heavy=1 kind=complete timeout=1800 unwindset="!memcmp.0=12"
+// @ob `>= $x` and `<= $y` together: the max limit applies, no min limit may be produced (x: Uint64, y: Uint64, full domains)
+two_filter_harness!(c22_limit_pair_ge_le_uu, ">=", "<=", |c, x| c >= x, |c, y| c <= y, false, false);
+// @harness c22_limit_pair_ge_ne_ii tier=thorough heavy=1 kind=complete timeout=1800 unwindset="!memcmp.0=12"
+// @ob `>= $x` and `!= $y` together: no min limit may be produced (the `!=` filter would see a truncated count) (x: Int64, y: Int64, full domains)
+two_filter_harness!(c22_limit_pair_ge_ne_ii, ">=", "!=", |c, x| c >= x, |c, y| c != y, true, true);
+// @harness c22_limit_pair_ge_ne_iu tier=thorough heavy=1 kind=complete timeout=1800 unwindset="!memcmp.0=12"
+// @ob `>= $x` and `!= $y` together: no min limit may be produced (the `!=` filter would see a truncated count) (x: Int64, y: Uint64, full domains)
+two_filter_harness!(c22_limit_pair_ge_ne_iu, ">=", "!=", |c, x| c >= x, |c, y| c != y, true, false);
+// @harness c22_limit_pair_ge_ne_ui tier=thorough heavy=1 kind=complete timeout=1800 unwindset="!memcmp.0=12"
+// @ob `>= $x` and `!= $y` together: no min limit may be produced (the `!=` filter would see a truncated count) (x: Uint64, y: Int64, full domains)
+two_filter_harness!(c22_limit_pair_ge_ne_ui, ">=", "!=", |c, x| c >= x, |c, y| c != y, false, true);
+// @harness c22_limit_pair_ge_ne_uu tier=thorough heavy=1 kind=complete timeout=1800 unwindset="!memcmp.0=12"
+// @ob `>= $x` and `!= $y` together: no min limit may be produced (the `!=` filter would see a truncated count) (x: Uint64, y: Uint64, full domains)
+two_filter_harness!(c22_limit_pair_ge_ne_uu, ">=", "!=", |c, x| c >= x, |c, y| c != y, false, false);
